@@ -2,7 +2,6 @@ CONSTANTS
   Mode = "wf"
   N = 4
   MaxEdges = 14
-  MaxBr = 0
   FailKinds = {"err"}
   AllowDangling = TRUE
   Runs = 2
